@@ -302,6 +302,9 @@ out:
 		error = 1;
 	}
 
+	/* Restore the ordering required by searchheader(). */
+	VECTOR_SORT(msg->me_headers, cmpheaderkey);
+
 	if (FAULT("message_write"))
 		error = 1;
 
